@@ -117,7 +117,18 @@ fn plan_launch(bc: &BCase, dir: &Path, clients: &[Uuid]) -> Option<Launch> {
         if free_port(host).is_none() {
             host = "127.0.0.1";
         }
-        let port = free_port(host)?;
+        // one case in three: the same port number on every address (distinct sockets all the
+        // same: 127.0.0.1:P, 127.0.0.2:P and [::1]:P); `localhost` keeps a port of its own
+        // because it names one of the others
+        let shared: Option<u16> = if bc.salt % 3 == 0 && host != "localhost" {
+            listen.iter().filter(|l: &&String| !l.starts_with("localhost")).filter_map(|l| l.rsplit(':').next().and_then(|p| p.parse::<u16>().ok())).next().filter(|p| !listen.contains(&format!("{host}:{p}")) && TcpListener::bind(format!("{host}:{p}")).is_ok())
+        } else {
+            None
+        };
+        let port = match shared {
+            Some(p) => p,
+            None => free_port(host)?,
+        };
         listen.push(format!("{host}:{port}"));
         let c = if host == "localhost" { format!("127.0.0.1:{port}") } else { format!("{host}:{port}") };
         connect.push(c.to_socket_addrs().ok()?.next()?);
